@@ -85,7 +85,8 @@ def build_harness():
     os.makedirs(BUILD, exist_ok=True)
     lock = os.path.join(HARNESS_DIR, "Cargo.lock")
     rc, out = sh(["cargo", "build", "--release", "--offline"], cwd=HARNESS_DIR, timeout=3000,
-                 env={"CARGO_TARGET_DIR": os.path.join(BUILD, "harness-target")})
+                 env={"CARGO_TARGET_DIR": os.path.join(BUILD, "harness-target"),
+                      "RUSTFLAGS": "--cfg mwlon_quantile_compression_verif"})
     return rc == 0, out
 
 # ------------------------------------------------------------------------------------------
